@@ -146,6 +146,7 @@ class World:
         return obs
 
     def do_check(self, pid, annotate, stack=None):
+        self.last_fault_calls = 0
         code = self.spec["programs"][pid]
         self.clock.reset()
         self.tokens.begin(pid)
@@ -403,7 +404,7 @@ class World:
                 elif op.get("stack"):
                     rec["stack"] = op["stack"]
                     rec["obs"] = self.direct(lambda: self.do_check(pid, ann, stack=op["stack"]))
-                    rec["calls"] = self.last_fault_calls
+                    rec["calls"] = getattr(self, "last_fault_calls", 0)
                     if "overrun" in rec["obs"]:
                         rec["aborted"] = True
                         self.out.emit(rec)
